@@ -224,10 +224,55 @@ pub fn run(cfg: &Cfg, sink: &Arc<Sink>) -> Report {
             ));
         }
     }
+    let n = cli_slice(cfg, sink);
+    report.phase(crate::core::Phase { name: "real CLI".into(), states: n, transitions: n, max_depth: 1, exhaustive: true, bound: "39 suffixes × {alone, next to a healthy file} × {scan, list, diff, list+diff}".into() });
     report
 }
 
-pub fn replay(_cfg: &Cfg, input: &Value, sink: &Arc<Sink>) {
+/// CLI slice: per suffix one healthy file with its last end tag deleted, alone and next to a
+/// healthy file, in scan, list and diff mode through the real binary: non-zero status, an error
+/// naming the file on stderr, nothing reported as success.
+fn cli_slice(cfg: &Cfg, sink: &Sink) -> u64 {
+    let repo = crate::cli::Scratch::repo("c12cli");
+    let mut n = 0;
+    for kit in KITS {
+        for file in kit.files {
+            let open = Seg::Comment { form: 0, layout: langkit::Layout::Bare, tags: Tags::Open };
+            let rendered = c03::render(kit, &[open, Seg::Code(0)], false);
+            let at = rendered.text.rfind("</block>").expect("auto-closed");
+            let text = format!("{}{}", &rendered.text[..at], &rendered.text[at + 8..]);
+            for with_healthy in [false, true] {
+                repo.clear();
+                repo.write(file, &text);
+                if with_healthy {
+                    repo.write(HEALTHY[0].0, HEALTHY[0].1);
+                }
+                let diff = cli::new_file_diff(file, &text);
+                for (mode, args, stdin) in [("scan", vec![], None), ("list", vec!["list"], None), ("diff", vec![], Some(diff.as_str())), ("list+diff", vec!["list"], Some(diff.as_str()))] {
+                    n += 1;
+                    sink.exec();
+                    let run = cli::blockwatch(&cfg.bin, &repo.dir, &args, stdin, &[], 30);
+                    let input = json!({"cli": true, "file": file, "mode": mode, "with_healthy": with_healthy});
+                    sink.outcome(format!("cli:{mode}:{:?}", run.code));
+                    if run.panicked() || run.timed_out {
+                        sink.fail(format!("C12:cli:crash:{}", kit.grammar), format!("{file} {mode}: {}", run.summary()), input);
+                    } else if run.code == Some(0) || !run.stdout.trim().is_empty() {
+                        sink.fail(format!("C12:cli:silent-accept:{}:{mode}", kit.grammar), format!("{file} lacks an end tag but {mode} gives {}\n--- {file} ---\n{text}", run.summary()), input);
+                    } else if !run.stderr.contains(file) {
+                        sink.fail(format!("C12:cli:error-does-not-name-file:{}", kit.grammar), format!("{file} {mode}: {}", run.summary()), input);
+                    }
+                }
+            }
+        }
+    }
+    n
+}
+
+pub fn replay(cfg: &Cfg, input: &Value, sink: &Arc<Sink>) {
+    if input.get("cli").is_some() {
+        cli_slice(cfg, sink);
+        return;
+    }
     let Some(kit) = input["grammar"].as_str().and_then(langkit::kit) else {
         sink.machinery("replay: unknown grammar");
         return;
